@@ -8,8 +8,6 @@ import "luahelper-lsp/langserver/check/compiler/lexer"
 
 func c03class(f *rxFeatures, refOK bool, gotErr bool) string {
 	switch {
-	case f.parenAssign && !refOK && !gotErr:
-		return "C03-paren-assign"
 	case f.hugeFloat && refOK && gotErr:
 		return "C03-float-range"
 	case f.hexNoDigit && !refOK && !gotErr:
@@ -134,7 +132,8 @@ func VerifRun_C03a() {
 
 // a2: the same token-level comparison with the K symbolic kinds placed inside a syntactic context (the
 // grammar's list constructs need more tokens than job a can afford around them): parameter lists, table
-// constructors, call arguments, for headers, local statements, if blocks, return lists, method definitions.
+// constructors, call arguments, for headers, local statements, if blocks, return lists, method definitions,
+// the target list of a multiple assignment.
 var c03ctx = [][2][]lexer.TkKind{
 	{{lexer.TkKwFunction, lexer.TkIdentifier, lexer.TkSepLparen}, {lexer.TkSepRparen, lexer.TkKwEnd}},
 	{{lexer.TkIdentifier, lexer.TkOpAssign, lexer.TkSepLcurly}, {lexer.TkSepRcurly}},
@@ -145,6 +144,8 @@ var c03ctx = [][2][]lexer.TkKind{
 	{{lexer.TkKwReturn}, {}},
 	{{lexer.TkKwFunction, lexer.TkIdentifier}, {lexer.TkSepLparen, lexer.TkSepRparen, lexer.TkKwEnd}},
 	{{lexer.TkIdentifier, lexer.TkOpAssign, lexer.TkKwFunction, lexer.TkSepLparen, lexer.TkIdentifier}, {lexer.TkSepRparen, lexer.TkKwEnd}},
+	// the later targets of a multiple assignment
+	{{lexer.TkIdentifier, lexer.TkSepComma}, {lexer.TkOpAssign, lexer.TkNumber}},
 }
 
 func VerifRun_C03a2() {
